@@ -226,14 +226,39 @@ theorem start_owns (kind : Kind) (alloc : Bool) (ob : OutBuf) (prev : Option Sta
                       refine ⟨by simp [allocBefore], ?_, ?_⟩ <;> (intro id hid; simp at hid))
   | reuse d =>
     by_cases hd : d = 0
-    · subst hd; simp only [start] at h; exact fresh _ _ rfl h
+    · subst hd
+      cases prev with
+      | none => simp only [start, beq_self_eq_true, Bool.not_false, Bool.and_self, if_true] at h; exact fresh _ _ rfl h
+      | some p =>
+        cases kind with
+        | std =>
+          have e : (Kind.std == Kind.tj) = false := rfl
+          simp only [start, e, beq_self_eq_true, Bool.false_and, Bool.not_false, Bool.and_self, if_true] at h
+          exact fresh true _ rfl (by rw [if_pos rfl]; exact h)
+        | tj =>
+          cases alloc with
+          | false =>
+            simp only [start, beq_self_eq_true, Bool.and_false, Bool.not_false, Bool.and_self, if_true] at h
+            exact fresh _ _ rfl h
+          | true =>
+            simp only [start, beq_self_eq_true, Bool.and_self, Bool.not_true, Bool.and_false, Bool.false_eq_true, if_false] at h
+            injection h with h; subst h
+            refine ⟨by simp [allocBefore], ?_, ?_⟩
+            · intro id hid
+              simp only at hid
+              split at hid
+              · rename_i hc
+                simp only [Bool.and_eq_true, beq_iff_eq] at hc
+                right; simp only [handedBack]; rw [← hc.2]; exact hid.symm ▸ rfl
+              · cases hid
+            · intro id hid; simp at hid
     · have : (d == 0) = false := by simp [hd]
       cases prev with
       | none =>
-        simp only [start, this] at h; injection h with h; subst h
+        simp only [start, this, Bool.false_and] at h; injection h with h; subst h
         refine ⟨by simp [allocBefore], ?_, ?_⟩ <;> (intro id hid; simp at hid)
       | some p =>
-        simp only [start, this] at h
+        simp only [start, this, Bool.false_and] at h
         injection h with h; subst h
         refine ⟨by simp [allocBefore], ?_, ?_⟩
         · intro id hid
